@@ -125,6 +125,11 @@ class Q:
         return mk(f_sub(c, self._me()))
 
     def __mul__(self, o):
+        if self.sq is not None and isinstance(o, Q) and o.sq is not None:
+            # sqrt(t) * sqrt(t) = t (t >= 0): the only arithmetic a square root supports besides squaring
+            if DOM().equal(self.sq, o.sq):
+                return self.sq
+            raise Unsupported("product of two different square roots in the exact domain")
         c = self._c(o)
         if c is None:
             return NotImplemented
@@ -362,6 +367,10 @@ class RingDom:
         raise Unsupported("general power in the exact domain")
 
     def sqrt(self, t):
+        if isinstance(t, Cx):
+            if not self.is_zero(t.im):
+                raise Unsupported("square root of a complex value in the exact domain")
+            t = t.re
         if V.is_conc(t):
             from .libspec import conc_elem
             r = conc_elem("sqrt", t)
